@@ -5,8 +5,7 @@ CONSTANTS
   Limits <- MCLimits
   HBMode = "off"
   Table = "GSUB"
-  MaxL = 1
-  TwoSubs = FALSE
+  Shapes = {"1x1"}
 SPECIFICATION MSpec
 CONSTRAINTS Bounded NoStuckLig
 INVARIANTS ReturnImpliesValid RaiseOnlyWhenStuck NoCrash TerminatesInv
